@@ -20,7 +20,8 @@ RULE = ("requests: 1..12 disjoint singletons and a-b ranges in any order over 1.
         "resp. 0..255; source or destination side (sometimes both); tcp/udp templates with eq / range / no operator on "
         "the generated side and other fields populated; port_count 1..6; both range policies; both platforms (NX-OS with "
         "count > 1 must raise); port_nr / protocol_nr. judged = contract evaluations; distinct non-trivial = (function, "
-        "platform, side, template operator, #parts, has range, port_count, policy, switch)")
+        "platform, side, template operator, #parts, has range, port_count, policy, switch)"
+        " Round 4: requests spelled with blanks; complete ranges 0-255 / 1-65535 on every run.")
 ASSUMPTIONS = ["combinations the API refuses by design raise ValueError and are counted as rejected_as_expected: an eq "
                "template with a range part under port_range=True, a range template with a single port, gt/lt templates, "
                "more than one port per line on NX-OS"]
